@@ -54,7 +54,11 @@ def cases(draw):
             m = dict(first)  # the same malformed text in several cells
         first = first or m
         dmg.append({'row': i, 'col': k, **m})
-    return {'doc': doc, 'damage': dmg}
+    case = {'doc': doc, 'damage': dmg}
+    if draw(st.integers(0, 3)) == 0:
+        # blank lines (kernpy skips them): error line numbers must still be the physical ones
+        case['blanks'] = sorted(set(draw(st.lists(st.integers(0, len(doc['rows']) - 1), min_size=1, max_size=3))))
+    return case
 
 
 def tsig(t):
@@ -73,15 +77,23 @@ def check(case):
         typ = doc['types'][a.spines[d['row']][d['col']]]
         doc2['rows'][d['row']]['c'][d['col']] = {'k': 'damaged', 't': d['t'], 'e': d['t'], 'cat': None}
         dmg[(d['row'], d['col'])] = dict(d, typ=typ)
-    text2 = S.render(doc2)
+    blanks = case.get('blanks', [])
+    lines2 = S.render(doc2, final=False).split('\n')
+    out_lines, phys = [], {}
+    for i, ln in enumerate(lines2):
+        if i in blanks:
+            out_lines.append('')
+        out_lines.append(ln)
+        phys[i] = len(out_lines)  # 1-based physical line of abstract row i
+    text2 = '\n'.join(out_lines) + '\n'
     try:
         kd2, errs = kp.loads(text2)
     except Exception as e:  # noqa
         raise Bad('import-raised', f'loads raised {type(e).__name__}: {e} for\n{text2}')
     problems = []
     got_err = sorted((e.line, e.encoding) for e in errs)
-    strict_exp = sorted((r + 1, d['t']) for (r, c), d in dmg.items() if d['typ'] in KERNLIKE and d['strict'])
-    loose_exp = sorted((r + 1, d['t']) for (r, c), d in dmg.items() if d['typ'] in KERNLIKE and not d['strict'])
+    strict_exp = sorted((phys[r], d['t']) for (r, c), d in dmg.items() if d['typ'] in KERNLIKE and d['strict'])
+    loose_exp = sorted((phys[r], d['t']) for (r, c), d in dmg.items() if d['typ'] in KERNLIKE and not d['strict'])
     # errors that correspond to no damaged kern cell, or are reported more than once
     allowed = strict_exp + loose_exp
     extra = list(got_err)
@@ -127,13 +139,13 @@ def check(case):
         actual[(ri, k)] = g
         if g in K.NULLS:
             doc3['rows'][ri]['c'][k] = dict(doc3['rows'][ri]['c'][k], k='null')
-        reported = (ri + 1, d['t']) in got_err
+        reported = (phys[ri], d['t']) in got_err
         if g != d['t']:
-            problems.append(Problem('not-verbatim', f'malformed cell {d["t"]!r} ({d["kind"]}, {d["typ"]}, line {ri + 1}) is imported/exported as {g!r}'
+            problems.append(Problem('not-verbatim', f'malformed cell {d["t"]!r} ({d["kind"]}, {d["typ"]}, line {phys[ri]}) is imported/exported as {g!r}'
                                     f' (error reported: {reported})\n{text2}',
                                     {'t': d['t'], 'got': g, 'reported': reported, 'kind': d['kind'], 'typ': d['typ']}))
         elif d['typ'] in KERNLIKE and not d['strict'] and not reported:
-            problems.append(Problem('missing-error', f'no error for {d["t"]!r}', {'missing': [(ri + 1, d['t'])]}))
+            problems.append(Problem('missing-error', f'no error for {d["t"]!r}', {'missing': [(phys[ri], d['t'])]}))
         elif d['typ'] not in KERNLIKE and tok.category.name not in (G.OWN_CAT.get(d['typ'], 'OTHER'),):
             # verbatim but under a foreign category: only structural tokens may keep their kern category
             if tok.category.name not in ('EMPTY', 'BARLINES', 'CLEF', 'KEY_SIGNATURE', 'TIME_SIGNATURE', 'METER_SYMBOL',
@@ -151,7 +163,7 @@ def check(case):
              any((r, cc) in dmg and (r < i or (r == i and cc < k)) and dmg[(r, cc)]['typ'] in KERNLIKE for (r, cc) in dmg)
              for i, k, c in S.cells(doc2))
     res = Result(nontrivial=nt, classes=['kind=' + d['kind'] for d in dmg.values()] + ['in-' + ('kern' if d['typ'] in KERNLIKE else 'other') for d in dmg.values()] +
-                 [f'damaged={len(dmg)}'], sample={'text': text2, 'damaged': [[d['row'] + 1, d['col'], d['t'], d['kind']] for d in case['damage']]},
+                 [f'damaged={len(dmg)}'] + (['blank-lines'] if blanks else []), sample={'text': text2, 'damaged': [[d['row'] + 1, d['col'], d['t'], d['kind']] for d in case['damage']]},
                  key=text2)
     res.problems = problems
     return res
@@ -177,8 +189,8 @@ def f_trail(case, p):
         d = p.data
         return d.get('reported') is False and d.get('kind') == 'trail' and _prefix_export(d['t'], d['got'])
     if p.sig == 'missing-error' and p.data.get('missing'):
-        trail = {(x['row'] + 1, x['t']) for x in case.get('damage', []) if x['kind'] == 'trail'}
-        return all(tuple(m) in trail for m in p.data['missing'])
+        trail = {x['t'] for x in case.get('damage', []) if x['kind'] == 'trail'}
+        return all(m[1] in trail for m in p.data['missing'])
     if p.sig == 'history-differs':
         return False
     return False
